@@ -395,6 +395,12 @@ def coverage_loops(idx, A):
                 while isinstance(el, ast.UnaryOp) and isinstance(el.op, ast.Not):
                     neg = not neg
                     el = el.operand
+                if e.func.id == "all" and not neg and isinstance(el, ast.BoolOp) and isinstance(el.op, ast.And):
+                    # all(A and c.<flag> and B ...): true only if every command is finished, whatever else is asked
+                    for conj in el.values:
+                        if isinstance(conj, ast.Attribute) and conj.attr == A.flag and isinstance(conj.value, ast.Name) and conj.value.id == v_:
+                            el = conj
+                            break
                 if not (v_ and isinstance(el, ast.Attribute) and el.attr == A.flag and isinstance(el.value, ast.Name) and el.value.id == v_):
                     return None
                 if e.func.id == "all" and not neg:
